@@ -9,7 +9,7 @@ func init() {
 		Variant{Prop: "C12", Name: "context-error-swallowed", File: st, Expect: "C12.a",
 			Old: "\tif err != nil && !errors.Is(err, errElapsedHeight) {\n\t\treturn zero, fmt.Errorf(\"awaiting header %d with head %d: %w\", height, s.Height(), err)\n\t}", New: "\tif err != nil && !errors.Is(err, errElapsedHeight) {\n\t\tlog.Debugw(\"awaiting header\", \"err\", err)\n\t}"},
 		Variant{Prop: "C12", Name: "wait-for-other-height", File: st, Expect: "C12.a",
-			Old: "\terr := s.heightSub.Wait(ctx, height)", New: "\terr := s.heightSub.Wait(ctx, height+1)"},
+			Old: "\terr := s.heightSub.wait(ctx, height, func() bool {", New: "\terr := s.heightSub.wait(ctx, height+1, func() bool {"},
 		Variant{Prop: "C12", Name: "recheck-dropped", File: hs, Expect: "C12.b",
 			Old: "\ths.heightSubsLk.Lock()\n\tif hs.Height() >= height {\n\t\t// This is a rare case", New: "\ths.heightSubsLk.Lock()\n\tif height == 0 {\n\t\t// This is a rare case"},
 		Variant{Prop: "C12", Name: "recheck-outside-lock", File: hs, Expect: "C12.b",
@@ -17,8 +17,9 @@ func init() {
 		Variant{Prop: "C12", Name: "unlock-between-check-and-register", File: hs, Expect: "C12.b",
 			Old: "\tsac, ok := hs.heightSubs[height]\n\tif !ok {\n\t\tsac = &sub{", New: "\ths.heightSubsLk.Unlock()\n\ths.heightSubsLk.Lock()\n\tsac, ok := hs.heightSubs[height]\n\tif !ok {\n\t\tsac = &sub{"},
 		Variant{Prop: "C12", Name: "select-while-locked", File: hs, Expect: "C12.b",
-			Old: "\tsac.count++\n\ths.heightSubsLk.Unlock()\n\n\tselect {", New: "\tsac.count++\n\tdefer hs.heightSubsLk.Unlock()\n\n\tselect {",
-			More: []Edit{{hs, "\t\t// no need to keep the request, if the op has canceled\n\t\ths.heightSubsLk.Lock()\n\t\ths.notify(height, false)\n\t\ths.heightSubsLk.Unlock()\n", "\t\ths.notify(height, false)\n"}}},
+			Old: "\tsac.count++\n\ths.heightSubsLk.Unlock()\n\n\tif stored != nil && stored() {\n\t\t// no need to keep the request, the header is there\n\t\ths.heightSubsLk.Lock()\n", New: "\tsac.count++\n\tdefer hs.heightSubsLk.Unlock()\n\n\tif stored != nil && stored() {\n\t\t// no need to keep the request, the header is there\n",
+			More: []Edit{{hs, "\t\t// no need to keep the request, if the op has canceled\n\t\ths.heightSubsLk.Lock()\n\t\ths.notify(height, false)\n\t\ths.heightSubsLk.Unlock()\n", "\t\ths.notify(height, false)\n"},
+				{hs, "\t\t\ths.notify(height, false)\n\t\t}\n\t\ths.heightSubsLk.Unlock()\n\t\treturn errElapsedHeight\n", "\t\t\ths.notify(height, false)\n\t\t}\n\t\treturn errElapsedHeight\n"}}},
 		Variant{Prop: "C12", Name: "context-case-removed", File: hs, Expect: "C12.b",
 			Old: "\tcase <-ctx.Done():\n\t\t// no need to keep the request, if the op has canceled", New: "\tcase <-make(chan struct{}):\n\t\t// no need to keep the request, if the op has canceled"},
 		Variant{Prop: "C12", Name: "notify-before-publish", File: hs, Expect: "C12.c",
